@@ -33,6 +33,7 @@ require (
 	github.com/mitchellh/mapstructure v1.1.2 // indirect
 	github.com/pegnet/LXRHash v0.0.0-20191028162532-138fe8d191a2 // indirect
 	github.com/pelletier/go-toml v1.2.0 // indirect
+	github.com/rs/cors v1.7.0 // indirect
 	github.com/spf13/afero v1.1.2 // indirect
 	github.com/spf13/cast v1.3.0 // indirect
 	github.com/spf13/jwalterweatherman v1.0.0 // indirect
